@@ -353,6 +353,29 @@ pub fn c09_sweep_unit(unit: u64, max_len: usize, ctx: &mut Ctx, ctl: &mut UnitCt
     let stack = STACKS[((unit / 26) % 3) as usize];
     let a = grid_spec(ty, 1, 2, 3);
     let b = grid_spec(ty, 2, 3, 50);
+    // for the types with Z and M: the same histories (up to length 3) with shapes that lie exactly at
+    // the origin, so that the running box after the writes is the all-zero box a header starts with
+    if matches!(ty, 11 | 13 | 18) {
+        let at_origin = |npts: usize, m_bits: u64| ShapeSpec { ty, parts: vec![Part { kind: -1, pts: vec![[0, 0, 0, m_bits]; npts] }], ctor: 0 };
+        let (o1, o2) = if ty == 11 { (at_origin(1, 0), at_origin(1, NO_DATA_BITS)) } else { (at_origin(2, 0), at_origin(3, NO_DATA_BITS)) };
+        for seq in sequences(max_len.min(3)) {
+            for e in 0..2 {
+                let calls: Vec<WCall> = seq.iter().map(|c| match c {
+                    0 => WCall::W(0),
+                    1 => WCall::W(1),
+                    _ => WCall::Fin,
+                }).collect();
+                let scn = HwScn { w: WProg { shapes: vec![o1.clone(), o2.clone()], others: vec![], calls, ending: if e == 0 { Ending::Drop } else { Ending::FinDrop }, with_shx, stack }, wplan: Plan::default(), path: false };
+                if !ctl.before_case(|| Scenario::HistW(scn.clone())) {
+                    continue;
+                }
+                ctx.stats.evaluations += 1;
+                ctx.stats.reach("shapes-at-the-origin");
+                execute(&scn, ctx);
+                ctl.after_case(ctx, || Scenario::HistW(scn.clone()));
+            }
+        }
+    }
     for seq in sequences(max_len) {
         for e in 0..4 {
             let calls: Vec<WCall> = seq.iter().map(|c| match c {
@@ -705,6 +728,33 @@ impl shapefile::record::EsriShape for BigLine {
     }
 }
 
+/// A polyline-typed user shape that honestly announces and emits `.0` MiB of zeros.
+struct HugeLine(usize);
+impl shapefile::HasShapeType for HugeLine {
+    fn shapetype() -> shapefile::ShapeType {
+        shapefile::ShapeType::Polyline
+    }
+}
+impl shapefile::record::WritableShape for HugeLine {
+    fn size_in_bytes(&self) -> usize {
+        self.0 * ZEROS.len()
+    }
+    fn write_to<T: std::io::Write>(&self, dest: &mut T) -> Result<(), shapefile::Error> {
+        for _ in 0..self.0 {
+            dest.write_all(&ZEROS)?;
+        }
+        Ok(())
+    }
+}
+impl shapefile::record::EsriShape for HugeLine {
+    fn x_range(&self) -> [f64; 2] {
+        [0.0, 1.0]
+    }
+    fn y_range(&self) -> [f64; 2] {
+        [0.0, 1.0]
+    }
+}
+
 /// A sink that keeps small writes and treats large all-zero writes as holes.
 #[derive(Default, Clone, PartialEq)]
 struct SparseSink {
@@ -853,6 +903,43 @@ pub fn execute_user(scn: &UserShapeScn, ctx: &mut Ctx) {
             }
             ctx.stats.reach("shp-beyond-2GiB-written");
         }
+        "huge" => {
+            // C18 for one record between 2 and 4 GiB (a size 32-bit words can still express): the
+            // content length stored in the record header and in the index entry is (announced + 4) / 2
+            let mib = scn.fin_after as usize;
+            let r = guarded(move || -> Result<(SparseSink, SparseSink), String> {
+                let shp = std::rc::Rc::new(std::cell::RefCell::new(SparseSink::default()));
+                let shx = std::rc::Rc::new(std::cell::RefCell::new(SparseSink::default()));
+                {
+                    let mut w = shapefile::ShapeWriter::with_shx(SinkH(shp.clone()), SinkH(shx.clone()));
+                    w.write_shape(&HugeLine(mib)).map_err(|e| format!("write: {:?}", classify(&e)))?;
+                    w.finalize().map_err(|e| format!("finalize: {:?}", classify(&e)))?;
+                }
+                let out = (shp.borrow().clone(), shx.borrow().clone());
+                Ok(out)
+            });
+            let announced = (mib as u64) << 20;
+            let want_words = ((announced + 4) / 2) as i64;
+            let be = |v: Option<&Vec<u8>>| v.filter(|b| b.len() == 4).map(|b| i32::from_be_bytes([b[0], b[1], b[2], b[3]]) as i64);
+            match r {
+                Err(p) => ctx.fail("C18", "panic", format!("panic:huge:{}", p.loc.rsplit('/').next().unwrap_or("").split(':').next().unwrap_or("")), format!("a user-defined shape of {} MiB: {}", mib, p.text())),
+                Ok(Err(e)) => ctx.fail("C18", "write-ok", "huge", format!("a user-defined shape of {} MiB: {}", mib, e)),
+                Ok(Ok((shp, shx))) => {
+                    let stored = be(shp.small.get(&104));
+                    if stored != Some(want_words) {
+                        ctx.fail("C18", "content-length-field", "huge", format!("a shape announcing {} bytes: the record header stores {:?} content words, expected {}", announced, stored, want_words));
+                    }
+                    let entry = be(shx.small.get(&104));
+                    if entry != Some(want_words) {
+                        ctx.fail("C04", "index-bytes", "huge", format!("a shape announcing {} bytes: the index entry stores {:?} content words, expected {}", announced, entry, want_words));
+                    }
+                    if shp.len != 100 + 12 + announced {
+                        ctx.fail("C18", "bytes-at-seam", "huge", format!("a shape announcing {} bytes: the .shp has {} bytes", announced, shp.len));
+                    }
+                }
+            }
+            ctx.stats.reach("record-beyond-2GiB-written");
+        }
         "big-no-retry" => {
             // C12 beyond 2 GiB: a finalize that fails once at operation `fail_op` is NOT retried; the
             // caller goes on writing and lets the drop finalize. Once the destination works again the
@@ -909,6 +996,8 @@ pub fn user_unit(unit: u64, ctx: &mut Ctx, ctl: &mut UnitCtl) {
         0 => vec![UserShapeScn { kind: "late".into(), fin_after: 0, fail_op: 0 }],
         1 => vec![UserShapeScn { kind: "big".into(), fin_after: 32, fail_op: 0 }, UserShapeScn { kind: "big".into(), fin_after: 17, fail_op: 0 }],
         3 => (1..=6).map(|k| UserShapeScn { kind: "big-no-retry".into(), fin_after: [32, 33][(k % 2) as usize], fail_op: k }).collect(),
+        // one record of 2 GiB - 1 MiB, 2 GiB, 3 GiB (the size in MiB travels in `fin_after`)
+        4 => [2047u32, 2048, 3072].iter().map(|m| UserShapeScn { kind: "huge".into(), fin_after: *m, fail_op: 0 }).collect(),
         _ => {
             // a finalize beyond 2 GiB that fails once at each of its first operations
             (1..=17).map(|k| UserShapeScn { kind: "big".into(), fin_after: 32, fail_op: k }).collect()
